@@ -845,7 +845,12 @@ CRASH_SCENARIOS = (
     [{"op": "create", "pre": pre, "relative": True} for pre in ("absent", "stale")] +
     [{"op": "rename", "pre": pre, "relative": False} for pre in ("absent", "stale", "live", "garbage", "own")] +
     [{"op": "rename", "pre": "absent", "relative": True}] +
-    [{"op": "unlink", "pre": pre, "relative": False} for pre in ("own", "live", "absent")]
+    [{"op": "unlink", "pre": pre, "relative": False} for pre in ("own", "live", "absent")] +
+    # restricted deployment: the pid directory belongs to root (0755), the process runs as nobody and can only write the
+    # pre-created pid file itself (the old name of a rename lives in a writable directory)
+    [{"op": "create", "pre": pre, "relative": False, "deploy": "restricted"}
+     for pre in ("stale", "garbage", "empty", "own", "live", "absent")] +
+    [{"op": "rename", "pre": pre, "relative": False, "deploy": "restricted"} for pre in ("stale", "live")]
 )
 
 
@@ -878,20 +883,29 @@ def crash_case(run, e6, base, scn, k, mode, expect_call=None, count=True):
                 return f.read()
         except FileNotFoundError:
             return None
-    T, O = rd("T"), rd("O")
-    left = [n for n in os.listdir(wd) if n not in ("T", "O")]
+    restricted = scn.get("deploy") == "restricted"
+    T, O = rd("T"), rd("ow/O" if restricted else "O")
+    left = [n for n in os.listdir(wd) if n not in ("T", "O", "ow")]
+    if restricted and os.path.isdir(os.path.join(wd, "ow")):
+        left += [n for n in os.listdir(os.path.join(wd, "ow")) if n != "O"]
     if left and count:
         run.count("info_leftover_tempfiles", len(left))
     viol = []
     call = expect_call or "none"
-    where = "%s(pre=%s%s) crash %s call #%d %s: target %r -> %r (new would be %r), old name %r, exit %s" % (
-        scn["op"], scn["pre"], ",relative" if scn.get("relative") else "", mode, k, call, pre, T, new, O, r["exit"])
+    where = "%s(pre=%s%s%s) crash %s call #%d %s: target %r -> %r (new would be %r), old name %r, exit %s" % (
+        scn["op"], scn["pre"], ",relative" if scn.get("relative") else "",
+        ",directory not writable by the process" if restricted else "", mode, k, call, pre, T, new, O, r["exit"])
     if mode is None:
         # the uncrashed run: final result
         ok = True
         if r["exit"] == 3 or r["calls"] is None:
             return r, [("!inconclusive", "counting run failed: %s" % (r["error"] or where))]
-        if scn["op"] == "create":
+        if restricted and r["exit"] == 5:
+            # no permission to create anything next to the target: refusing is accepted, the target must be untouched
+            if count:
+                run.count("crash_restricted_refused_eperm")
+            ok = T == pre and (scn["op"] != "rename" or O in (None, new))
+        elif scn["op"] == "create":
             ok = (T == pre and r["exit"] == 4) if scn["pre"] == "live" else (T == new and r["exit"] == 0)
         elif scn["op"] == "rename":
             ok = (T == pre and O in (None, new)) if scn["pre"] == "live" else (T == new and O is None and r["exit"] == 0)
@@ -917,6 +931,8 @@ def crash_case(run, e6, base, scn, k, mode, expect_call=None, count=True):
         viol.append(("partial-content-after-crash-at-old-name/" + call, where))
     if count:
         run.count("crash_outcome_" + ("absent" if T is None else "previous" if T == pre else "new" if T == new else "other"))
+        if restricted:
+            run.count("crash_restricted_points")
     return r, viol
 
 
@@ -929,7 +945,7 @@ def crash_modes(call):
 
 def run_crash_scenario(run, e6, base, scn):
     r, viol = crash_case(run, e6, base, scn, 0, None)
-    run.case(("K", scn["op"], scn["pre"], scn.get("relative"), 0, None))
+    run.case(("K", scn["op"], scn["pre"], scn.get("relative"), scn.get("deploy"), 0, None))
     run.count("crash_counting_runs")
     for mech, text in viol:
         if mech == "!inconclusive":
@@ -937,12 +953,13 @@ def run_crash_scenario(run, e6, base, scn):
             return
         run.violation(mech, text, {"part": "K", "scn": scn, "k": 0, "mode": None})
     calls = r["calls"]
-    run.info["crash_calls/%s/%s%s" % (scn["op"], scn["pre"], "/relative" if scn.get("relative") else "")] = \
+    run.info["crash_calls/%s/%s%s%s" % (scn["op"], scn["pre"], "/relative" if scn.get("relative") else "",
+                                        "/restricted" if scn.get("deploy") else "")] = \
         " ".join(calls)
     for k, call in enumerate(calls, 1):
         for mode in crash_modes(call):
             r2, viol = crash_case(run, e6, base, scn, k, mode, expect_call=call)
-            run.case(("K", scn["op"], scn["pre"], scn.get("relative"), k, mode, call))
+            run.case(("K", scn["op"], scn["pre"], scn.get("relative"), scn.get("deploy"), k, mode, call))
             run.count("crash_points_enumerated")
             run.count("crash_at_" + call)
             if mode.startswith("short"):
@@ -958,6 +975,397 @@ def run_crash_scenario(run, e6, base, scn):
                             "all_calls": calls}, cap=2)
 
 
+# ---- part R: two or three instances interleaved at system-call granularity ----------------------
+
+def _rs(name, ops, pre=None, own=None, fname=None, n=2):
+    return {"name": name, "n": n, "ops": ops, "pre": pre or {}, "own": own or {}, "fname": fname or {}}
+
+
+RACE_SCENARIOS = (
+    # two starters on one path
+    [_rs("create|create/" + pre, {"A": "create", "B": "create"}, {"P": pre})
+     for pre in ("absent", "stale", "garbage", "empty", "third")] +
+    # a starter and a reader / a stopping instance / an instance moving its file away or onto the path
+    [_rs("create|validate/" + pre, {"A": "create", "B": "validate"}, {"P": pre}) for pre in ("absent", "stale")] +
+    [_rs("create|unlink/owner", {"A": "create", "B": "unlink"}, own={"B": "P"}),
+     _rs("create|unlink/stale", {"A": "create", "B": "unlink"}, {"P": "stale"}),
+     _rs("create|rename-away/owner", {"A": "create", "B": "rename:Q"}, own={"B": "P"}),
+     _rs("create|rename-onto/absent", {"A": "create", "B": "rename:P"}, own={"B": "Q"}, fname={"B": "Q"}),
+     _rs("create|rename-onto/stale", {"A": "create", "B": "rename:P"}, {"P": "stale"}, own={"B": "Q"}, fname={"B": "Q"}),
+     _rs("rename|rename/swap", {"A": "rename:Q", "B": "rename:P"}, own={"A": "P", "B": "Q"}, fname={"B": "Q"}),
+     _rs("unlink|validate/owner", {"A": "unlink", "B": "validate"}, own={"A": "P"}),
+     _rs("create|create|create/absent", {"A": "create", "B": "create", "C": "create"}, n=3),
+     _rs("create|create|create/stale", {"A": "create", "B": "create", "C": "create"}, {"P": "stale"}, n=3)]
+)
+
+
+# scenarios whose schedules are ALL run (no preemption bound)
+RACE_EXHAUSTIVE = {
+    "quick": ("create|create/absent", "create|create/third", "create|validate/absent", "create|unlink/owner",
+              "unlink|validate/owner"),
+    "thorough": ("create|create/absent", "create|create/third", "create|create/garbage", "create|create/empty",
+                 "create|validate/absent", "create|validate/stale", "create|unlink/owner", "create|unlink/stale",
+                 "unlink|validate/owner", "create|rename-away/owner"),
+}
+
+
+def race_op(scn, X):
+    """(kind, path the operation may remove, path it may write the caller's pid to)"""
+    spec = scn["ops"][X]
+    f = scn["fname"].get(X, "P")
+    if spec.startswith("rename:"):
+        return "rename", f, spec[7:]
+    if spec == "create":
+        return "create", None, f
+    if spec == "unlink":
+        return "unlink", f, None
+    return "validate", None, None
+
+
+class PrefixChooser:
+    """Follows a recorded schedule, then keeps running the current instance (never preempts on its own)."""
+
+    def __init__(self, prefix):
+        self.prefix = list(prefix)
+
+    def __call__(self, i, options):
+        if i < len(self.prefix):
+            return self.prefix[i]
+        return options[0]
+
+
+class RandomChooser:
+    def __init__(self, rng, p_switch):
+        self.rng = rng
+        self.p = p_switch
+
+    def __call__(self, i, options):
+        if len(options) > 1 and self.rng.random() < self.p:
+            return self.rng.choice(options[1:])
+        return options[0]
+
+
+def exec_race(ctx, scn, chooser):
+    """Run the operations of scn concurrently under one schedule.  chooser(step index, options) -> instance; options
+    lists the instances that still have calls to make, the one that moved last first.
+    Returns dict(viol, trace, steps=[(options, chosen, current still runnable)], abort, reach, info)."""
+    lab, e6 = ctx.lab, ctx.e6
+    res = {"viol": [], "reach": {}, "info": {}, "trace": [], "steps": [], "abort": None}
+
+    def cnt(k, n=1, where="reach"):
+        res[where][k] = res[where].get(k, 0) + n
+
+    insts = SLOTS[:scn["n"]]
+    cfg = {"n": scn["n"], "layout": "contend", "uids": [0] * scn["n"], "order": None}
+    try:
+        for X in list(ctx.slot):
+            if X not in insts:
+                lab.retire(ctx.slot.pop(X))
+        for X in insts:
+            ctx.ensure(X, 0)
+        lab.clean()
+        me = {X: "pid:" + X for X in insts}
+        tok2b = {"garbage": GARBAGE, "empty": b"", "third": b"%d\n" % os.getpid()}
+        for X in insts:
+            tok2b[me[X]] = b"%d\n" % ctx.slot[X].pid
+        dead = None
+        if "stale" in scn["pre"].values():
+            taken = [int(b) for b in tok2b.values() if b[:1].isdigit()]
+            dead = getattr(ctx, "dead_pid", None)       # one dead pid serves many schedules (checked each time)
+            if dead is None or dead in taken or not e6.pid_is_dead(dead):
+                dead = ctx.dead_pid = lab.fresh_dead_pid(exclude=taken)
+            tok2b["stale"] = b"%d\n" % dead
+        b2tok = {}
+        for t, b in tok2b.items():
+            if b in b2tok:
+                raise PidReuse("%r stands for both %s and %s" % (b, b2tok[b], t))
+            b2tok[b] = t
+        live = set(me.values()) | {"third"}
+        for p, kind in scn["pre"].items():
+            if kind != "absent":
+                lab.write(FNAME[p], tok2b[kind])
+        for X in insts:
+            ctx.slot[X].call(op="new", fname=lab.path(FNAME[scn["fname"].get(X, "P")]))
+        for X, p in scn["own"].items():
+            rep = ctx.slot[X].call(op="create")
+            if not rep["ok"] or lab.read(FNAME[p]) != tok2b[me[X]]:
+                res["abort"] = "could not establish %s as the owner of %s: %s" % (X, FNAME[p], rep)
+                return res
+
+        def observe():
+            out = {}
+            for p in PATHS:
+                d = lab.read(FNAME[p])
+                out[p] = None if d is None else b2tok.get(d, "raw:" + d[:64].hex())
+            return out
+
+        def show(tok):
+            if tok is None:
+                return "absent"
+            if tok.startswith("raw:"):
+                return "%r" % bytes.fromhex(tok[4:])
+            return "%s=%r" % (tok, tok2b.get(tok))
+
+        def bad(mech, text):
+            res["viol"].append((mech, "%s: %s" % (scn["name"], text)))
+
+        ops = {X: race_op(scn, X) for X in insts}
+        files = observe()
+        initial = dict(files)
+        window = {X: {p: [files[p]] for p in PATHS} for X in insts}     # what each path showed while X's operation ran
+        parked, result, made = {}, {}, {X: 0 for X in insts}
+        for X in insts:
+            kind, _, dst = ops[X]
+            cmd = {"op": kind, "gated": True}
+            if kind == "rename":
+                cmd["path"] = lab.path(FNAME[dst])
+            ev = ctx.slot[X].call(**cmd)
+            if "at" in ev:
+                parked[X] = ev
+            else:
+                result[X] = ev
+        current = None
+        overlap = False
+        i = 0
+        while parked:
+            options = ([current] if current in parked else []) + sorted(x for x in parked if x != current)
+            Y = chooser(i, options)
+            if Y not in options:
+                res["abort"] = "schedule names %s at step %d but only %s can move (execution not deterministic?)" % (
+                    Y, i, options)
+                break
+            res["steps"].append((options, Y, current in parked))
+            if current in parked and Y != current:
+                cnt("race_preemptions")
+                cnt("race_preempted_before_" + parked[current]["at"], where="info")
+            call = parked[Y]
+            ev = ctx.slot[Y].call(go=True)
+            made[Y] += 1
+            if "at" in ev:
+                parked[Y] = ev
+            else:
+                del parked[Y]
+                result[Y] = ev
+            if len([x for x in insts if made[x] and x in parked]) >= 2:
+                overlap = True
+            after = observe()
+            cnt("race_steps_observed")
+            res["trace"].append({"step": i, "inst": Y, "call": call["at"], "args": call.get("args"),
+                                 "files": {p: show(after[p]) for p in PATHS if after[p] != files[p]} or None,
+                                 "done": (result[Y].get("exc") or "returned") if Y in result else None})
+            # ---- what one call of Y may do to the paths
+            kind, src, dst = ops[Y]
+            for p in PATHS:
+                b, a = files[p], after[p]
+                if a == b:
+                    continue
+                desc = "step %d, %s.%s %s(%s): %s was %s, now %s" % (i, Y, kind, call["at"], call.get("args"), FNAME[p],
+                                                                       show(b), show(a))
+                b_live_other = b in live and b != me[Y]
+                if a is None:
+                    if b == me[Y]:
+                        pass
+                    elif b_live_other:
+                        bad("race-removed-foreign-file", desc)
+                    elif p == dst:
+                        cnt("race_takeover_removed_first", where="info")
+                    else:
+                        bad("race-removed-foreign-file", desc)
+                elif a == me[Y]:
+                    if p != dst:
+                        bad("race-wrote-unrelated-path", desc)
+                    elif b_live_other and all(t in live and t != me[Y] for t in window[Y][p]):
+                        bad("race-create-overwrote-live-owner",
+                            desc + " (the path named another live process at every instant of this operation)")
+                    elif b_live_other:
+                        cnt("race_later_rename_won", where="info")
+                else:
+                    if a.startswith("pid:") or a in ("stale", "third"):
+                        bad("race-published-foreign-pid", desc + " (the caller's pid is %s)" % show(me[Y]))
+                    else:
+                        bad("race-incomplete-content-visible", desc)
+            files = after
+            for X in parked:
+                for p in PATHS:
+                    window[X][p].append(files[p])
+            if Y in result:
+                for p in PATHS:
+                    window[Y][p].append(files[p])
+            current = Y
+            i += 1
+            if res["viol"]:
+                break
+        # release whoever is still parked (after a violation / an abort)
+        for X in list(parked):
+            try:
+                ev = ctx.slot[X].call(go=False)
+                while "at" in ev:
+                    ev = ctx.slot[X].call(go=False)
+            except (e6.HelperTimeout, e6.HelperDied):
+                ctx.respawn(X, 0)
+        if res["viol"] or res["abort"]:
+            if dead is not None and not e6.pid_is_dead(dead):
+                raise PidReuse("the stale pid %d answers kill(0) again" % dead)
+            return res
+
+        # ---- the end: who believes to hold what, and what the files say
+        believers = {p: [] for p in PATHS}
+        for X in insts:
+            kind, src, dst = ops[X]
+            ok = result[X]["ok"]
+            f0 = scn["own"].get(X)
+            holds = f0
+            if kind == "create":
+                holds = dst if ok else f0
+            elif kind == "unlink":
+                holds = None
+            elif kind == "rename":
+                holds = dst if ok else None
+            if holds:
+                believers[holds].append(X)
+            if kind in ("create", "rename"):
+                seen = window[X][dst]
+                only_live_others = all(t in live and t != me[X] for t in seen)
+                never_live_other = not any(t in live and t != me[X] for t in seen)
+                what = "%s.%s on %s %s; the path showed %s while it ran" % (
+                    X, kind, FNAME[dst], "returned" if ok else "raised %s: %s" % (result[X].get("exc"), result[X].get("msg")),
+                    " -> ".join(show(t) for t in _dedup(seen)))
+                if ok and only_live_others:
+                    bad("race-create-accepted-live-owner", what)
+                elif not ok and never_live_other:
+                    bad("race-create-refused-takeover", what)
+                cnt("race_%s_%s" % (kind, "returned" if ok else "refused"))
+                if not ok:
+                    cnt("race_exc_" + str(result[X].get("exc")), where="info")
+        summary = "; ".join("%s.%s %s" % (X, ops[X][0], "returned" if result[X]["ok"] else "raised " + str(result[X].get("exc")))
+                            for X in insts)
+        for p in PATHS:
+            c = files[p]
+            owner = [X for X in insts if me[X] == c]
+            if owner and owner[0] not in believers[p]:
+                bad("race-file-names-non-owner", "at the end %s holds %s, but %s does not hold that file (%s; holders: %s)" % (
+                    FNAME[p], show(c), owner[0], summary, believers[p] or "none"))
+            elif believers[p] and not owner:
+                bad("race-owner-left-unnamed", "at the end %s hold(s) %s but the file is %s (%s)" % (
+                    believers[p], FNAME[p], show(c), summary))
+            elif c is not None and not owner and c != initial[p]:
+                bad("race-incomplete-content-visible", "at the end %s holds %s (%s)" % (FNAME[p], show(c), summary))
+            if len(believers[p]) > 1:
+                cnt("race_two_instances_returned_from_create_on_one_path", where="info")
+            if owner and initial[p] == "stale":
+                cnt("race_took_over_stale")
+        if overlap:
+            cnt("race_schedules_with_overlap")
+        left = [n for n in lab.listing() if n not in FNAME.values()]
+        if left:
+            cnt("info_leftover_tempfiles", len(left))
+        if res["viol"] and dead is not None and not e6.pid_is_dead(dead):
+            raise PidReuse("the stale pid %d answers kill(0) again" % dead)
+    except PidReuse as ex:
+        res["abort"] = "pid-reuse: %s" % ex
+    except (e6.HelperTimeout, e6.HelperDied, OSError) as ex:
+        res["abort"] = "helper: %r" % (ex,)
+        for X in list(ctx.slot):
+            lab.retire(ctx.slot.pop(X))
+    return res
+
+
+def _dedup(seq):
+    out = []
+    for t in seq:
+        if not out or out[-1] != t:
+            out.append(t)
+    return out
+
+
+def run_race(ctx, run, scn, chooser, how):
+    """exec_race + confirmation of deviations (the schedule that was actually taken is re-executed twice)."""
+    res = None
+    for _ in range(4):
+        res = exec_race(ctx, scn, chooser)
+        if res["abort"] and res["abort"].startswith("pid-reuse"):
+            run.info["pid_reuse_retries"] = run.info.get("pid_reuse_retries", 0) + 1
+            continue
+        break
+    sched = [y for _, y, _ in res["steps"]]
+    if res["abort"]:
+        run.inconclusive_because("race %s schedule %s: %s" % (scn["name"], "".join(sched), res["abort"]))
+        return res
+    run.case(("R", scn["name"], "".join(sched)))
+    run.count("race_schedules_run")
+    run.count("race_schedules_" + how)
+    for k, v in res["reach"].items():
+        run.count(k, v)
+    for k, v in res["info"].items():
+        run.info[k] = run.info.get(k, 0) + v
+    if not res["viol"]:
+        return res
+    mechs = sorted(m for m, _ in res["viol"])
+    same = 0
+    for _ in range(2):
+        r2 = exec_race(ctx, scn, PrefixChooser(sched))
+        if not r2["abort"] and sorted(m for m, _ in r2["viol"]) == mechs:
+            same += 1
+    if same == 0:
+        run.info["transient_deviation"] = run.info.get("transient_deviation", 0) + 1
+        return res
+    if same == 1:
+        run.inconclusive_because("deviation %s in race %s schedule %s reproduced only once in two re-runs" % (
+            mechs, scn["name"], "".join(sched)))
+        return res
+    case = {"part": "R", "scn": scn, "schedule": sched}
+    for mech, text in res["viol"]:
+        run.violation(mech, "%s | schedule=%s trace=%s" % (text, "".join(sched), json.dumps(res["trace"][-6:])), case)
+    return res
+
+
+def explore_races(ctx, run, scn, bound, limit, rng, samples):
+    """Every schedule with at most `bound` preemptions (depth-first, re-executing from the start), then `samples`
+    seeded random schedules."""
+    prefix = []
+    n = 0
+    complete = True
+    while True:
+        res = run_race(ctx, run, scn, PrefixChooser(prefix), "enumerated")
+        n += 1
+        if res["abort"] or run.enough(12):
+            complete = False
+            break
+        steps = res["steps"]
+        if res["viol"]:
+            # the execution stopped at the violating step: schedules below it cannot be enumerated
+            complete = False
+        used = []
+        k = 0
+        for options, y, cur_runnable in steps:
+            used.append(k)
+            if cur_runnable and y != options[0]:
+                k += 1
+        nxt = None
+        for j in range(len(steps) - 1, -1, -1):
+            options, y, cur_runnable = steps[j]
+            at = options.index(y)
+            if at + 1 < len(options) and (not cur_runnable or used[j] + 1 <= bound):
+                nxt = [s[1] for s in steps[:j]] + [options[at + 1]]
+                break
+        if nxt is None:
+            break
+        if n >= limit:
+            complete = False
+            run.info["race_enumeration_cut/" + scn["name"]] = n
+            break
+        prefix = nxt
+    if complete:
+        run.count("race_scenarios_enumerated_to_bound")
+    run.info["race_schedules/%s/bound%d" % (scn["name"], bound)] = n
+    for j in range(samples):
+        if run.enough(12):
+            break
+        res = run_race(ctx, run, scn, RandomChooser(rng, rng.choice([0.15, 0.35, 0.5, 0.8])), "sampled")
+        if res["abort"]:
+            break
+
+
 # ---- shards, main, replay ----------------------------------------------------------------------
 
 def cfg_name(cfg):
@@ -967,9 +1375,30 @@ def cfg_name(cfg):
 def shard(sh):
     tier = sh.get("tier", "quick")
     run = Run(PROP, tier, sh["seed"], LEVEL, RULE)
+    if sh["kind"] == "live":
+        from checks import c17_live
+        c17_live.shard(run, sh)
+        return run
     ctx = Ctx()
     try:
-        if sh["kind"] == "H":
+        if sh["kind"] == "R":
+            for idx in sh["scenarios"]:
+                scn = RACE_SCENARIOS[idx]
+                rng = rng_for(sh["seed"], "c17-race", scn["name"])
+                bound = sh["bound3"] if scn["n"] == 3 else sh["bound"]
+                if "rename-onto" in scn["name"] or "swap" in scn["name"]:
+                    bound = min(bound, sh.get("bound_long", bound))      # 20+ calls per schedule
+                if scn["name"] in RACE_EXHAUSTIVE[tier]:
+                    bound = 99
+                    run.count("race_scenarios_enumerated_exhaustively")
+                explore_races(ctx, run, scn, bound, sh["limit"], rng, sh["samples"])
+                run.count("race_scenarios")
+                if idx == 0:
+                    res = exec_race(ctx, scn, RandomChooser(rng_for(sh["seed"], "c17-race-sample"), 0.5))
+                    run.sample({"part": "R", "scenario": scn["name"], "schedule": "".join(y for _, y, _ in res["steps"]),
+                                "trace": res["trace"]}, cap=1)
+            run.info["helper_forks"] = ctx.lab.forks
+        elif sh["kind"] == "H":
             cfg = sh["cfg"]
             t0 = time.time()
             n = 0
@@ -1036,6 +1465,23 @@ def plan(tier, seed):
             H(c(layout="usr2", order=order), 4, 5, 16, 300)
         H(c(n=3), 3, 4, 16, 500)
         H(c(n=3, uids=[NOBODY, 0, WWW]), 3, 3, 8, 500)
+    # races: heaviest scenarios first, one or two per shard
+    nr = len(RACE_SCENARIOS)
+    if q:
+        # measured cost (calls per schedule x schedules within the bound): longest first into the emptiest of 6 shards
+        cost = {"create|create|create/stale": 57, "create|rename-onto/stale": 45, "create|create|create/absent": 34,
+                "rename|rename/swap": 29, "create|create/absent": 25, "create|create/garbage": 21, "create|rename-onto/absent": 20}
+        groups = [[] for _ in range(6)]
+        load = [0] * 6
+        for i in sorted(range(nr), key=lambda i: -cost.get(RACE_SCENARIOS[i]["name"], 8)):
+            j = load.index(min(load))
+            groups[j].append(i)
+            load[j] += cost.get(RACE_SCENARIOS[i]["name"], 8)
+    else:
+        groups = [[i] for i in range(nr)]
+    for g in groups:
+        shards.append({"kind": "R", "scenarios": g, "bound": 4 if q else 6, "bound3": 2 if q else 3, "bound_long": 3 if q else 5,
+                       "limit": 6000 if q else 150000, "samples": 150 if q else 3000, "seed": seed, "tier": tier})
     shards.append({"kind": "M", "uids": [0, NOBODY], "seed": seed, "tier": tier})
     for i in range(4):
         shards.append({"kind": "K", "sub": i, "of": 4, "seed": seed, "tier": tier})
@@ -1051,11 +1497,17 @@ def main(tier, seed):
                 "rename_refused_live_instance", "owner_deaths", "foreign_overwrites", "matrix_cases",
                 "matrix_refused_live", "matrix_took_over", "crash_points_enumerated", "short_write_crashes",
                 "crash_at_os.rename", "crash_at_os.write", "crash_outcome_previous", "crash_outcome_new",
-                "crash_outcome_absent")
+                "crash_outcome_absent", "crash_restricted_points",
+                "race_schedules_run", "race_schedules_enumerated", "race_schedules_sampled", "race_steps_observed",
+                "race_preemptions", "race_schedules_with_overlap", "race_scenarios_enumerated_to_bound",
+                "race_create_returned", "race_create_refused", "race_rename_returned", "race_took_over_stale")
     run.assumptions = list(ASSUMPTIONS)
     if os.geteuid() != 0:
         run.inconclusive_because("not root: helpers cannot take different uids, the EPERM liveness answer is unreachable")
-    common.run_sharded(run, plan(tier, seed), timeout=800 if tier == "quick" else 2800)
+    from checks import c17_live
+    live = c17_live.plan(run, tier, seed)
+    # the live scenarios mostly wait on wall-clock time: start them first and fill the remaining cores with the rest
+    common.run_sharded(run, live + plan(tier, seed), timeout=800 if tier == "quick" else 2800)
     return run.finish()
 
 
@@ -1066,7 +1518,19 @@ def replay(path):
     run = Run(PROP, "quick", 0, LEVEL, RULE)
     ctx = Ctx()
     try:
-        if c["part"] == "H":
+        if c["part"] == "live":
+            from checks import c17_live
+            for mech, text in c17_live.replay_case(run, c):
+                run.violation(mech, text, c)
+        elif c["part"] == "R":
+            res = exec_race(ctx, c["scn"], PrefixChooser(c["schedule"]))
+            for t in res["trace"]:
+                print("  " + json.dumps(t))
+            if res["abort"]:
+                print("aborted: " + res["abort"])
+            for mech, text in res["viol"]:
+                run.violation(mech, text, c)
+        elif c["part"] == "H":
             res = exec_history(ctx, c["cfg"], c["ops"])
             for t in res["trace"]:
                 print("  " + json.dumps(t))
